@@ -268,6 +268,13 @@ pub async fn run(ctx: &Ctx) {
             2 => Some(fp_of(&cert_der(other))),
             // "claimed": the fingerprint signaling promised, held by a different key than the peer's
             3 => Some(fp_of(&cert_der(plan.knob("claimed_cert", 3) as usize))),
+            // a fingerprint value shorter than the digest (SDP parsing does not insist on 32 octets): the leading
+            // `fp_trunc` octets of the peer's real fingerprint - the digest does not EQUAL it
+            4 => {
+                let full = fp_of(&cert_der(peer_cert));
+                let k = plan.knob("fp_trunc", 1).clamp(0, 31) as usize;
+                Some(if k == 0 { String::new() } else { full[..(3 * k - 1).min(full.len())].to_string() })
+            }
             _ => None,
         }
     };
@@ -741,13 +748,17 @@ pub fn generate(prop: &str, seed: u64, idx: u64, tier: Tier) -> Plan {
                 Some(("split".into(), vec![3])),
             ];
             let targets = ["DTLS:hs:certificate", "DTLS:hs:server_key_exchange", "DTLS:hs:server_hello", "DTLS:hs:server_hello_done", "DTLS:hs:client_key_exchange"];
-            // dims: victim role (0 client, 1 server) x fp mode (0 none,1 match,2 mismatch,3 claimed-by-impostor) x rewrite x target
-            let core = 2 * 4 * rewrites.len() as u64 * targets.len() as u64;
+            // dims: victim role (0 client, 1 server) x fp mode (0 none,1 match,2 mismatch,3 claimed-by-impostor,
+            // 4 truncated prefix of the peer's real fingerprint) x rewrite x target
+            let core = 2 * 5 * rewrites.len() as u64 * targets.len() as u64;
             let k = if idx < core { idx } else { r.below(core) };
             let victim = k % 2;
-            let fpm = (k / 2) % 4;
-            let rw = &rewrites[((k / 8) % rewrites.len() as u64) as usize];
-            let tg = targets[((k / 8 / rewrites.len() as u64) % targets.len() as u64) as usize];
+            let fpm = (k / 2) % 5;
+            let rw = &rewrites[((k / 10) % rewrites.len() as u64) as usize];
+            let tg = targets[((k / 10 / rewrites.len() as u64) % targets.len() as u64) as usize];
+            if fpm == 4 {
+                p.knobs.insert("fp_trunc".into(), *[1i64, 2, 8, 16, 31, 0].get(((k / 10) % 6) as usize).unwrap());
+            }
             // Server-role victims are exercised only in combinations where the handshake is authentic:
             // the server never authenticates its client (known finding F-dtls-server-noauth), and one
             // always-reachable defect must not end every run.
@@ -760,7 +771,7 @@ pub fn generate(prop: &str, seed: u64, idx: u64, tier: Tier) -> Plan {
                 p.knobs.insert("claimed_cert".into(), 3);
                 if victim == 0 {
                     // the impostor may also present the claimed (public) certificate next to its own
-                    let c = if idx < core { (k / 8) % 3 } else { r.below(3) };
+                    let c = if idx < core { (k / 10) % 3 } else { r.below(3) };
                     if c > 0 {
                         p.knobs.insert("chain_b".into(), c as i64);
                     }
@@ -846,8 +857,8 @@ pub fn budget(prop: &str, tier: Tier) -> u64 {
     match (prop, tier) {
         ("C11", Tier::Quick) => ns + 1500 + 24_000,
         ("C11", Tier::Thorough) => ns + ns * ns + 600_000,
-        ("C02", Tier::Quick) => 440 + 16_000,
-        ("C02", Tier::Thorough) => 440 + 400_000,
+        ("C02", Tier::Quick) => 550 + 16_000,
+        ("C02", Tier::Thorough) => 550 + 400_000,
         ("C03", Tier::Quick) => 16_000,
         (_, _) => 400_000,
     }
